@@ -17,6 +17,8 @@ THEOREMS = [
     "Remoc.Wiring.connInv_step",
     "Remoc.Link.forward_requests_paired",
     "Remoc.Link.fport_step",
+    "Remoc.Link.forward_ids_on_wire",
+    "Remoc.Link.wire_step",
     "Remoc.Wiring.forward_model_hop",
     "Remoc.Wiring.forward_preserves_wiring_of_model",
 ]
